@@ -29,13 +29,19 @@ def run(tier):
         conds.append(Cond("h_parse_str.py", "sound", to, twin="reach", path_timeout=to / 2, env=env))
     conds.append(Cond("h_parse_str.py", "sound", 240 if tier == "quick" else 1500, twin="reach",
                       env={"H_SPEC": "uni", "H_LEN": "2" if tier == "quick" else "3", "H_START": "<alt>"}))
-    run.run_conditions(conds, conformance_harnesses=["h_parse_str.py"])
+    for spec, n in (("prefix", 3), ("amb", 2), ("open", 3), ("uni", 2 if tier == "quick" else 3)):
+        conds.append(Cond("h_parse_api.py", "api_sound", 600 if tier == "quick" else 2400, twin="reach_api" if spec == "prefix" else None,
+                          env={"H_SPEC": spec, "H_LEN": str(n if tier == "quick" else n + 1)}))
+    conds.append(Cond("h_parse_api.py", "bytes_sound", 600 if tier == "quick" else 2400, twin="reach_bytes", env={"H_BLEN": "2" if tier == "quick" else "3"}))
+    run.run_conditions(conds, conformance_harnesses=["h_parse_str.py", "h_parse_api.py"])
     run.encoded = ["IterativeParser.new_parse/consume/_consume/predict/scan_bytes/complete/place_repetition_shortcut/"
                    "to_derivation_tree/collapse", "Column.add/update/find_dot/replace", "ParseState.*", "Terminal.check",
                    "DerivationTree.__init__/set_children/to_string", "TreeValue.append/to_string"]
     run.extra["source_sha256_16"] = source_fingerprint(FILES)
     run.bounds = {"word": "str over all code points", "max_len": {s: (q if tier == "quick" else t) for s, q, t in STR_SPECS},
                   "grammars": [s for s, _, _ in STR_SPECS]}
+    run.bounds["api level"] = "Grammar.parse_forest after one prior request (none / prefix-mode parse / first-tree request / other word / both modes) on words over the spec's letters"
+    run.bounds["bytes input"] = "bytes words of length <= 2 (3) over {e9,78,c3,a9,00,79} against a grammar mixing non-ASCII str literals and bytes literals"
     run.outside = ["regex terminals (third-party C matcher realises its subject)", "words longer than the bound",
                    "grammars outside the fixed family", "the constraint filter of Fandango.parse (see C07/C02 checks)"]
     run.assumptions = ["CrossHair 0.0.110 + plug-in (engine/plugin.py) is faithful to CPython on this code: checked by the conformance gate",
